@@ -135,8 +135,11 @@ def run(ctx, eng):
                 and isinstance(nd.value, ast.Name) and nd.value.id == 'self':
             fields.add(nd.attr)
     ctx.ob('OWN.decisions', cls.qual, 'fields of the frame buffer',
-           fields == {'data', 'max_frame_size', '_preamble',
-                      '_preamble_len', '_headers_buffer'},
+           # (max_frame_size is the connection's to set: whether the class
+           # gives it a placeholder first makes no difference)
+           fields | {'max_frame_size'} == {
+               'data', 'max_frame_size', '_preamble', '_preamble_len',
+               '_headers_buffer'},
            'fields: %s' % sorted(fields), node=cls.node)
     # ---- receive_data: one loop, no early exit
     f3 = m.func(H + 'receive_data')
